@@ -84,8 +84,8 @@ def c_conj(c):
     c.observe('Mc', Mc)
 
 
-@contract('C01', 'homomorphism', variants=[dict(via='product'), dict(via='mul'), dict(via='q_prod')], cost=10,
-          functions=['Quaternion.product', 'Quaternion.__mul__', 'orientation.q_prod', 'Quaternion.to_DCM'])
+@contract('C01', 'homomorphism', variants=[dict(via='product'), dict(via='mul'), dict(via='matmul'), dict(via='q_prod')], cost=10,
+          functions=['Quaternion.product', 'Quaternion.__mul__', 'Quaternion.__matmul__', 'orientation.q_prod', 'Quaternion.to_DCM'])
 def c_hom(c):
     """M(p*q) = M(p) M(q) for unit p, q (constructor normalisation included: p, q arbitrary non-zero)"""
     a = c.ahrs
@@ -98,6 +98,8 @@ def c_hom(c):
         pq = P.product(Q)
     elif c.p['via'] == 'mul':
         pq = P * Q
+    elif c.p['via'] == 'matmul':
+        pq = P @ Q
     else:
         pq = a.common.orientation.q_prod(P.A, Q.A)
     c.goal('product-is-unit', eq(dot(pq, pq), 1))
